@@ -1476,7 +1476,7 @@ def _target_of(state: dict) -> DT:
 
 
 # =========================================================================================== _promote
-def _promote(ctx) -> None:
+def _promote(ctx, rule: str = "b.promote") -> None:
     prog = ctx.prog
     f = prog.func("vector.Vector._promote")
     I = Interp(prog)
@@ -1487,7 +1487,7 @@ def _promote(ctx) -> None:
             st, r = I.call("vector.Vector._can_promote", [Cls(a), Cls(b)])
             if st == "return" and isinstance(r, Const) and r.v is True and a != b:
                 can.add((a, b))
-    ctx.ob("b.promote", prog.func("vector.Vector._can_promote"), "table", can == PROMOTABLE,
+    ctx.ob(rule, prog.func("vector.Vector._can_promote"), "table", can == PROMOTABLE,
            f"_can_promote accepts {sorted(can)}", prog.func("vector.Vector._can_promote").node,
            message=f"_can_promote accepts {sorted(can)}, the supported promotions are {sorted(PROMOTABLE)}")
     # branches of _promote: decided per (current kind, target kind) situation on the symx event log
@@ -1607,15 +1607,15 @@ def _promote(ctx) -> None:
         problems.append(f"_promote supports {sorted(pairs)} but _can_promote/spec say {sorted(PROMOTABLE)}")
     seen = set()
     problems = [p for p in problems if not (p in seen or seen.add(p))]
-    ctx.ob("b.promote", f, "branches", not problems, f"_promote converts exactly {sorted(pairs)}", f.node, message="; ".join(problems))
+    ctx.ob(rule, f, "branches", not problems, f"_promote converts exactly {sorted(pairs)}", f.node, message="; ".join(problems))
     # raise for unsupported: every raise precedes any store
     cfg = cfg_of(f)
     raises = [n for n in cfg.stmt_nodes() if isinstance(n.ast, ast.Raise)]
     stores = [n for n in cfg.stmt_nodes() if isinstance(n.ast, ast.Assign) and short(n.ast.targets[0]).startswith("self.")]
     late = [r for r in raises for s_ in stores if cfg.can_reach(s_, r)]
-    ctx.ob("b.promote", f, "raise-before-store", not late and not late_raise and bool(raises), "every raise of _promote precedes its first store",
+    ctx.ob(rule, f, "raise-before-store", not late and not late_raise and bool(raises), "every raise of _promote precedes its first store",
            raises[0].ast if raises else f.node, message="_promote can raise after it has already replaced storage/dtype")
-    ctx.ob("b.promote", f, "identity", not any("no-op" in p for p in problems), "same kind: no-op", f.node,
+    ctx.ob(rule, f, "identity", not any("no-op" in p for p in problems), "same kind: no-op", f.node,
            message="promoting a vector to its own kind is not a no-op")
 
 
